@@ -240,7 +240,8 @@ pub async fn run_case(case: Vec<String>) -> String {
 
     let acceptor: Arc<tokio::sync::Mutex<Option<Acceptor>>> = Default::default();
     let mut local_tag = String::new();
-    let invite_branch = "z9hG4bKinvite1";
+    // a caller that predates the magic cookie (RFC 2543 style branch): its INVITE, CANCEL and ACK share this branch as well
+    let invite_branch = if setup.contains("lbranch") { "invite1" } else { "z9hG4bKinvite1" };
     let invite_cseq: u32 = setup.split(';').find_map(|kv| kv.strip_prefix("cseq=")).and_then(|v| v.parse().ok()).unwrap_or(314);
     let mut req_counter = 0;
     let mut cseq_counter = 0; // consecutive CSeq numbers for the peer's in-dialog requests (ACK re-uses one)
